@@ -47,7 +47,9 @@ _BIN = {ast.Add: operator.add, ast.Sub: operator.sub, ast.Mult: operator.mul, as
         ast.RShift: operator.rshift, ast.BitOr: operator.or_, ast.BitAnd: operator.and_}
 
 _SAFE_BUILTINS = {'len': len, 'max': max, 'min': min, 'bool': bool, 'str': str, 'int': int, 'abs': abs,
-                  'ord': ord, 'chr': chr, 'isinstance': None, 'format': format, 'float': float}
+                  'ord': ord, 'chr': chr, 'isinstance': None, 'format': format, 'float': float, 'range': range, 'enumerate': enumerate,
+                  'zip': zip, 'reversed': reversed, 'sorted': sorted, 'any': any, 'all': all, 'sum': sum, 'tuple': tuple, 'list': list, 'set': set,
+                  'dict': dict, 'repr': repr, 'round': round}
 _SAFE_METHODS = {('str', 'lower'), ('str', 'upper'), ('str', 'isdecimal'), ('str', 'isdigit'), ('str', 'startswith'),
                  ('str', 'endswith'), ('str', 'rjust'), ('str', 'ljust'), ('str', 'zfill'), ('str', 'strip'),
                  ('dict', 'get'), ('str', 'find'), ('str', 'join'), ('str', 'split'), ('str', 'capitalize'),
